@@ -56,6 +56,46 @@ MUTANTS = [
     ("c06-lexicon-repeat-dropped", "C06", "trees/grammar.py",
      "            if not word in lexicon:\n                lexicon[word] = Counter([])\n            lexicon[word].update([label])",
      "            if not word in lexicon:\n                lexicon[word] = Counter([])\n                lexicon[word].update([label])\n            elif label not in lexicon[word]:\n                lexicon[word].update([label])"),
+    # ---- C08
+    ("c08-sum-to-max", "C08", "trees/grammar.py",
+     "                rule_cnt = sum(grammar[func][lin].values())",
+     "                rule_cnt = max(grammar[func][lin].values())"),
+    ("c08-last-site-assigns", "C08", "trees/grammar.py",
+     "            result[bin_func][this_lin] = {grammarconst.DEFAULT_VERT: 0}\n        result[bin_func][this_lin][grammarconst.DEFAULT_VERT] += rule_cnt",
+     "            result[bin_func][this_lin] = {grammarconst.DEFAULT_VERT: 0}\n        result[bin_func][this_lin][grammarconst.DEFAULT_VERT] = rule_cnt"),
+    # ---- C09
+    ("c09-rcg-lexicon-counts-one", "C09", "trees/grammaroutput.py",
+     "                tags = [\"%s %d\" % (tag, lexicon[word][tag])\n                        for tag in lexicon[word]]\n                lex_stream.write(u\"%s\\t%s\\n\" % (word, ' '.join(tags)))\n\n\nFORMATS",
+     "                tags = [\"%s %d\" % (tag, 1)\n                        for tag in lexicon[word]]\n                lex_stream.write(u\"%s\\t%s\\n\" % (word, ' '.join(tags)))\n\n\nFORMATS"),
+    ("c09-lopar-start-counts-rules", "C09", "trees/grammaroutput.py",
+     "                    startsymbols[func[0]] += count", "                    startsymbols[func[0]] += 1"),
+    # ---- C11
+    ("c11-cache-never-switches-file", "C11", "trees/transform.py",
+     "    if not hasattr(insert_terminals, \"fn\") \\\n       or insert_terminals.fn != params['terminalfile']:",
+     "    if not hasattr(insert_terminals, \"fn\") \\\n       or insert_terminals.fn is None:"),
+    ("c11-filter-lt-is-le", "C11", "trees/transform.py",
+     "        if length < val:", "        if length <= val:"),
+    # ---- C16
+    ("c16-terminals-counted-as-nodes", "C16", "trees/treeanalysis.py",
+     "            # skip terminals\n            if trees.has_children(subtree):",
+     "            # skip terminals\n            if True:"),
+    ("c16-blocks-off-by-one", "C16", "trees/trees.py",
+     "        if terms[i].data['num'] + 1 < terms[i + 1].data['num']:\n            blocks.append([])",
+     "        if terms[i].data['num'] + 2 < terms[i + 1].data['num']:\n            blocks.append([])"),
+    # ---- C17
+    ("c17-ties-to-last-part", "C17", "trees/treeoutput.py",
+     "            parts[parts.index(max(parts))] += diff",
+     "            parts[len(parts) - 1 - parts[::-1].index(max(parts))] += diff"),
+    ("c17-iterator-restarted-per-part", "C17", "trees/transform.py",
+     "            sys.stderr.write(\"writing part %d\\n\" % i)\n",
+     "            sys.stderr.write(\"writing part %d\\n\" % i)\n            tree_iter = iter(tree_list)\n"),
+    # ---- C18
+    ("c18-labelgen-module-singleton", "C18", "trees/grammar.py",
+     "        label_gen = LabelGenerator()\n        vert = grammarconst.DEFAULT_VERT",
+     "        label_gen = _SHARED_LABEL_GEN\n        vert = grammarconst.DEFAULT_VERT"),
+    ("c18-brackets-counter-on-function", "C18", "trees/treeinput.py",
+     "    cnt = 1\n    if 'brackets_firstid' in params:\n        cnt = params['brackets_firstid']",
+     "    cnt = getattr(brackets, 'last_cnt', 1)\n    if 'brackets_firstid' in params:\n        cnt = params['brackets_firstid']"),
 ]
 
 
@@ -67,8 +107,25 @@ def scratch_copy(repo):
     return base, dst
 
 
+EXTRA = {
+    "c18-labelgen-module-singleton": [("trees/grammar.py", "def linsub(lin, src, dest, replace):",
+                                       "_SHARED_LABEL_GEN = LabelGenerator()\n\n\ndef linsub(lin, src, dest, replace):")],
+    "c18-brackets-counter-on-function": [("trees/treeinput.py",
+                                          "                        cnt += 1\n",
+                                          "                        cnt += 1\n                        brackets.last_cnt = cnt\n")],
+}
+
+
 def apply(dst, m):
     name, prop, rel, old, new = m
+    for (rel2, old2, new2) in EXTRA.get(name, []):
+        p2 = os.path.join(dst, rel2)
+        with open(p2, encoding='utf-8') as f:
+            s2 = f.read()
+        if s2.count(old2) < 1:
+            return False
+        with open(p2, 'w', encoding='utf-8') as f:
+            f.write(s2.replace(old2, new2, 1))
     p = os.path.join(dst, rel)
     with open(p, encoding='utf-8') as f:
         s = f.read()
